@@ -1770,11 +1770,12 @@ def m_key_bytes(c):
 @method("read", "readline", "readlines")
 def m_read(c):
     c.rz("OSError", "read failure", pure=False)
-    c.rz("UnicodeDecodeError", "read of undecodable bytes in text mode", pure=False)
     mode = None
     h = c.recv
     if is_call(h, "builtin:open"):
         mode = h[2][1] if len(h[2]) > 1 else dict(h[3]).get("mode", C("r"))
+    if not (mode is not None and is_const(mode) and "b" in str(mode[2])):
+        c.rz("UnicodeDecodeError", "read of undecodable bytes in text mode", pure=False)
     if mode is not None and is_const(mode):
         rt = frozenset(["bytes" if "b" in str(mode[2]) else "str"])
     else:
